@@ -77,6 +77,10 @@ class _SoftTimeout(BaseException):
     pass
 
 
+class _EntryAbandoned(Exception):
+    """Too many inputs of one entry exceeded the soft budget: the rest of its workload is dropped (and said so)."""
+
+
 def _on_alarm(_sig, _frm):
     raise _SoftTimeout()
 
@@ -339,15 +343,25 @@ class Judge:
                        "origin": org})
 
     # ---- rule 5 (interpreter-level slowness; C-level stalls are seen by the supervisor)
+    MAX_SLOW = 5
+
     def timeout(self, e: Entry, variant: int, mode: str, inp) -> None:
         if getattr(self, "_skipped", False):
             return
         self.ctx.stat("soft-timeout")
         if self._case is not None:
             self.pending_timeouts.append(dict(self._case, stage="parse"))
+        self._slow_here = getattr(self, "_slow_here", 0) + 1
+        if self._slow_here >= self.MAX_SLOW:
+            self._slow_here = 0
+            raise _EntryAbandoned(e.name)
 
     def consumer_timeout(self, stage: str) -> None:
         self.ctx.stat("soft-timeout")
+        self._slow_stage = getattr(self, "_slow_stage", {})
+        self._slow_stage[stage] = self._slow_stage.get(stage, 0) + 1
+        if self._slow_stage[stage] >= 3:
+            self.skip_stages.add(stage)   # three slow cases are journalled for the re-run; no need to pay for more
         if self._case is not None:
             self.pending_timeouts.append(dict(self._case, stage=stage))
 
@@ -1769,7 +1783,11 @@ def supervise(ctx: Ctx, items: list) -> None:
                     cctx.rng = random.Random(f"{ctx.prop}:{ctx.seed}:{ctx.shard}:{label}:{attempt if k == start else 0}")
                     _beat()
                     try:
+                        J._slow_here = 0
                         work(cctx, J)
+                    except _EntryAbandoned:
+                        cctx.notes.append(f"{label}: {Judge.MAX_SLOW} inputs exceeded the soft budget; the rest of its workload was dropped")
+                        cctx.stat("entry-abandoned-after-slow-inputs")
                     except _SoftTimeout:
                         cctx.stat("soft-timeout-outside-guard")
                     except BaseException as ex:  # noqa: BLE001
@@ -2032,3 +2050,177 @@ def finalize(m: dict, tier: str) -> list[str]:
     if not m["selftest"].get("descriptor_checksums.json"):
         out.append("generator-aid self-tests did not run")
     return out
+
+
+# ================================================================= atheris
+ATHERIS_ENTRIES = [
+    "Tx.parse", "Block.parse", "Psbt.parse", "PsbtIn.parse[v0]", "PsbtIn.parse[v2]", "PsbtOut.parse[v0]", "PsbtOut.parse[v2]", "Message.parse",
+    "Version.parse", "CmpctBlock.parse", "AddrV2.parse", "Headers.parse", "BlockTxn.parse", "Witness.parse", "script.parse", "taproot.parse",
+    "BIP32KeyData.parse", "dsa.Sig.parse", "BasicBlockFilter.parse", "psbt_utils.deserialize_map", "miniscript.from_script", "PsbtView",
+    "ecies.Envelope.parse", "psbt_utils.parse_taproot_tree", "descriptors.parse", "miniscript.parse", "Bip21.parse", "b32.witness_from_address",
+    "b58.h160_from_address", "BIP32KeyData.b58decode", "Psbt.b64decode", "tx_or_psbt_from_any", "der_path.indexes_from_der_path",
+    "slip39.share_from_mnemonic", "bip39.entropy_from_mnemonic", "electrum.version_from_mnemonic",
+]
+
+
+def _ensure_atheris() -> str | None:
+    """None when ``import atheris`` works (installing the vendored wheel into /verif/.deps once if needed); else why not."""
+    root = os.path.dirname(os.path.dirname(os.path.dirname(os.path.abspath(__file__))))
+    deps = os.path.join(root, ".deps")
+    if deps not in sys.path:
+        sys.path.append(deps)
+    try:
+        import atheris  # noqa: F401
+
+        return None
+    except Exception as first:  # noqa: BLE001
+        if os.path.isdir("/opt/veriftools/wheels") and os.path.isdir(deps):
+            subprocess.run([sys.executable, "-m", "pip", "install", "--quiet", "--no-index", "--find-links", "/opt/veriftools/wheels", "--target", deps,
+                            "atheris"], capture_output=True, text=True, timeout=300)
+            import importlib
+
+            importlib.invalidate_caches()
+            try:
+                import atheris  # noqa: F401
+
+                return None
+            except Exception as second:  # noqa: BLE001
+                return f"{type(second).__name__}: {str(second)[:150]}"
+        return f"{type(first).__name__}: {str(first)[:150]}"
+
+
+def _atheris_pass(ctx: Ctx) -> None:
+    """One libFuzzer process per parser (atheris.Fuzz does not return), several at a time, same exception oracle."""
+    root = os.path.dirname(os.path.dirname(os.path.dirname(os.path.abspath(__file__))))
+    per = float(ctx.params.get("per_s", 60))
+    names = list(ATHERIS_ENTRIES)
+    running: list = []
+    td = tempfile.mkdtemp(prefix="rv-c19-ath-")
+    env = dict(os.environ)
+    env["PYTHONPATH"] = os.pathsep.join([root, os.path.join(root, ".deps"), env.get("PYTHONPATH", "")])
+
+    def reap(block: bool) -> None:
+        for item in list(running):
+            name, proc, out, t0 = item
+            if proc.poll() is None:
+                if time.time() - t0 < per * 4 + 120 and not block:
+                    continue
+                if time.time() - t0 < per * 4 + 120:
+                    try:
+                        proc.wait(timeout=per * 4 + 120 - (time.time() - t0))
+                    except subprocess.TimeoutExpired:
+                        pass
+                if proc.poll() is None:
+                    proc.kill()
+                    proc.wait()
+                    ctx.notes.append(f"atheris on {name} did not end by itself and was stopped")
+            running.remove(item)
+            try:
+                with open(out) as f:
+                    r = json.load(f)
+            except Exception:  # noqa: BLE001
+                ctx.notes.append(f"atheris on {name} left no result (rc={proc.returncode})")
+                ctx.stat("atheris:no-result")
+                continue
+            n = int(r.get("execs", 0))
+            ctx.bulk("atheris:coverage-guided", n, distinct=r.get("distinct", 0))
+            ctx.mon(f"atheris-execs:{name}", n)
+            ctx.stat("atheris:parsers-fuzzed")
+            for v in r.get("violations", []):
+                ctx.violation(v["mechanism"], v["description"], v["case"])
+
+    for name in names:
+        if ctx.out_of_time():
+            ctx.notes.append(f"atheris: budget reached before {name}")
+            break
+        while len(running) >= int(ctx.params.get("parallel", 6)):
+            reap(False)
+            time.sleep(0.5)
+        out = os.path.join(td, f"{len(running)}-{abs(hash(name))}.json")
+        corpus = os.path.join(td, "corpus-" + str(abs(hash(name))))
+        os.makedirs(corpus, exist_ok=True)
+        proc = subprocess.Popen([sys.executable, "-c", "import sys; from rv.props.c19 import _atheris_main; _atheris_main(*sys.argv[1:])", name, str(per), out, corpus,
+                                 str(ctx.seed)], cwd=root, env=env, stdout=subprocess.DEVNULL, stderr=subprocess.DEVNULL)
+        running.append((name, proc, out, time.time()))
+    while running:
+        reap(True)
+    import shutil
+
+    shutil.rmtree(td, ignore_errors=True)
+
+
+def _atheris_main(name: str, seconds: str, out: str, corpus: str, seed: str) -> None:
+    import atexit
+    import random
+
+    repo = os.environ.get("VERIF_REPO", "/repo")
+    sys.path.insert(0, repo)
+    sys.setrecursionlimit(1000)
+    import atheris
+
+    with atheris.instrument_imports(include=["btclib"]):
+        import btclib  # noqa: F401
+        from ..gen.hostile import RecStream, Seeds
+
+        reg = build_registry(Seeds(random.Random(int(seed))), only=name)
+    e = {x.name: x for x in reg}[name]
+    from btclib.exceptions import BTClibException
+
+    warnings.simplefilter("ignore")
+    state = {"execs": 0, "violations": [], "mechs": set(), "seen": set(), "t": time.time()}
+    for i, s in enumerate(e.seeds[:20]):
+        with open(os.path.join(corpus, f"seed{i}"), "wb") as f:
+            f.write(s if isinstance(s, bytes) else str(s).encode("utf-8", "surrogatepass"))
+
+    def dump() -> None:
+        with open(out + ".tmp", "w") as f:
+            json.dump({"execs": state["execs"], "distinct": len(state["seen"]), "violations": state["violations"]}, f)
+        os.replace(out + ".tmp", out)
+
+    atexit.register(dump)
+    text = e.kind == "text"
+    kw = e.variants[0]
+
+    def one(data: bytes) -> None:
+        state["execs"] += 1
+        if len(state["seen"]) < 2_000_000:
+            state["seen"].add(hash(data))
+        if text:
+            arg = data.decode("utf-8", "surrogatepass") if len(data) % 5 else data.decode("utf-8", "replace")
+        else:
+            arg = RecStream(data) if (e.kind == "stream" and state["execs"] % 2) else bytes(data)
+        try:
+            e.fn(arg, **kw)
+        except BTClibException:
+            return
+        except UnicodeDecodeError as ex:
+            if text and lib_origin(ex) is None:
+                return
+            _ath_record(e, ex, data, state)
+        except Exception as ex:  # noqa: BLE001
+            _ath_record(e, ex, data, state)
+
+    def safe(data: bytes) -> None:
+        try:
+            one(data)
+        except UnicodeDecodeError:
+            pass    # the harness's own decoding of the fuzzer's octets into text
+        if state["execs"] % 256 == 0 and time.time() - state["t"] > 1.0:   # libFuzzer leaves through _exit: no atexit
+            state["t"] = time.time()
+            dump()
+
+    atheris.Setup([sys.argv[0], corpus, f"-max_total_time={int(float(seconds))}", "-max_len=4096", f"-seed={int(seed) + 1}", "-rss_limit_mb=3000",
+                   "-timeout=30", "-print_final_stats=0", "-verbosity=0"], safe)
+    atheris.Fuzz()
+
+
+def _ath_record(e: Entry, ex: BaseException, data: bytes, state: dict) -> None:
+    org = lib_origin(ex)
+    if org is None:
+        return
+    mech = f"foreign-exception:{type(ex).__name__}@{org}"
+    if mech in state["mechs"]:
+        return
+    state["mechs"].add(mech)
+    state["violations"].append({"mechanism": mech, "description": f"{e.name} [atheris] parse: {type(ex).__name__}: {str(ex)[:200]}",
+                                "case": {"entry": e.name, "how": "atheris", "input": replayable(bytes(data))}})
